@@ -158,6 +158,12 @@ def run_property(pid, tier, seed):
             for te in r.tool_errors:
                 inconclusive.append('tool-limit unit=%s: %s' % (unit, str(te)[:400]))
         failed_fns = set(o['function'] for o in r.failed)
+        # for the obligation count only failures that belong to this property matter (a clause tagged for another
+        # property is not one of this property's obligations)
+        sites_u = spec.get('sites', {}).get(unit)
+        own_failed_fns = set(o['function'] for o in r.failed
+                             if not ((o.get('props_site') and pid not in o['props_site']) or (o.get('props_clause') and pid not in o['props_clause'])
+                                     or (sites_u is not None and o.get('function') not in sites_u)))
         # other seeds: instability
         for sd in seeds[1:]:
             r2 = results[(unit, 'main', sd)]
@@ -166,7 +172,7 @@ def run_property(pid, tier, seed):
             n2 = sorted(o['name'] for o in r2.failed)
             if r2.tool_errors or n1 != n2:
                 inconclusive.append('unstable-proof unit=%s seed=%s: default seed failed=%s, this seed failed=%s tool=%s' % (unit, sd, n1, n2, r2.tool_errors[:1]))
-        ob, dis, fns = unit_obligations(g, failed_fns, pid, spec.get('sites', {}).get(unit))
+        ob, dis, fns = unit_obligations(g, own_failed_fns, pid, spec.get('sites', {}).get(unit))
         if ob == 0:
             inconclusive.append('vacuity unit=%s generated zero obligations' % unit)
         if not r.tool_errors and not r.failed and r.verified == 0:
